@@ -16,7 +16,7 @@ os.makedirs("/tmp/wtd", exist_ok=True)
 subprocess.run(["git", "-C", "/repo", "worktree", "add", "--detach", wt, "HEAD", "-q"], check=True)
 sv = f"/tmp/seedev-{name}"
 shutil.rmtree(sv, ignore_errors=True); os.makedirs(sv + "/evidence")
-shutil.copy("/verif/known_findings.json", sv)
+shutil.copy("/verif/known_findings.json", sv); shutil.copytree("/verif/golden", sv + "/golden")
 ap = subprocess.run(["git", "-C", wt, "apply", "--3way", f"{dst}/patch.diff"], capture_output=True, text=True)
 if ap.returncode != 0:
     ap = subprocess.run(["git", "-C", wt, "apply", f"{dst}/patch.diff"], capture_output=True, text=True)
